@@ -162,6 +162,25 @@ class LSP:
             self._dispatch(m)
         return rec
 
+    def request_nowait(self, method, params):
+        """send a request without waiting (use wait_for afterwards); usable inside batch()"""
+        rid = self.next_id
+        self.next_id += 1
+        self.seq += 1
+        rec = {"seq": self.seq, "id": rid, "method": method, "params": params, "t_call": time.monotonic(), "answered": False}
+        self.trace.append(rec)
+        self.open_requests[rid] = rec
+        self._send({"jsonrpc": "2.0", "id": rid, "method": method, "params": params})
+        return rec
+
+    def wait_for(self, rec, timeout=30.0):
+        deadline = time.time() + timeout
+        while not rec["answered"] and time.time() < deadline and not self.eof:
+            m = self._read_message(max(0.05, deadline - time.time()))
+            if m is not None:
+                self._dispatch(m)
+        return rec
+
     def notify(self, method, params):
         self.seq += 1
         self.trace.append({"seq": self.seq, "id": None, "method": method, "params": params,
